@@ -103,6 +103,7 @@ struct ConcurrentObjectArena {
       if (ptr == nullptr)
         throw std::bad_alloc();
 #endif // __cpp_exceptions
+      DISPENSO_VERIF_NOTE("CopyRdBuf", this, i, 0);
       std::memcpy(ptr, otherBuffers[i], kBufferSize * sizeof(T));
       newBuffers[i] = static_cast<T*>(ptr);
     }
@@ -165,22 +166,27 @@ struct ConcurrentObjectArena {
    **/
   Index grow_by(const Index delta) {
     Index newPos;
+    DISPENSO_VERIF_POINT("GrowLdPos", this);
     Index oldPos = pos_.load(std::memory_order_relaxed);
 
     do {
+      DISPENSO_VERIF_POINT("GrowLdAlloc", this);
       Index curSize = allocatedSize_.load(std::memory_order_acquire);
 
       if (oldPos + delta >= curSize) {
+        DISPENSO_VERIF_POINT("GrowLock", this);
         const std::lock_guard<std::mutex> guard(resizeMutex_);
         curSize = allocatedSize_.load(std::memory_order_relaxed);
         while (oldPos + delta >= curSize) {
           allocateBuffer();
+          DISPENSO_VERIF_NOTE("LkStAlloc", this, curSize + kBufferSize, buffersPos_);
           allocatedSize_.store(curSize + kBufferSize, std::memory_order_release);
           curSize = curSize + kBufferSize;
         }
       }
 
       newPos = oldPos + delta;
+      DISPENSO_VERIF_POINT("GrowCas", this);
     } while (!std::atomic_compare_exchange_weak_explicit(
         &pos_, &oldPos, newPos, std::memory_order_release, std::memory_order_relaxed));
 
@@ -201,6 +207,7 @@ struct ConcurrentObjectArena {
     const Index bufIndex = index >> kLog2BuffSize;
     const Index i = index & kMask;
 
+    DISPENSO_VERIF_POINT("IdxLdBuf", this);
     return buffers_.load(std::memory_order_acquire)[bufIndex][i];
   }
 
@@ -223,6 +230,7 @@ struct ConcurrentObjectArena {
    *concurrently with this call.
    **/
   Index size() const {
+    DISPENSO_VERIF_POINT("SizeLd", this);
     return pos_.load(std::memory_order_relaxed);
   }
 
@@ -231,6 +239,7 @@ struct ConcurrentObjectArena {
    * @return The current capacity. Note that elements can be appended concurrently
    **/
   Index capacity() const {
+    DISPENSO_VERIF_POINT("CapLd", this);
     return allocatedSize_.load(std::memory_order_relaxed);
   }
 
@@ -248,6 +257,7 @@ struct ConcurrentObjectArena {
    * @return The pointer to the buffer.
    **/
   const T* getBuffer(const Index index) const {
+    DISPENSO_VERIF_POINT("GetBufLd", this);
     return buffers_.load(std::memory_order_acquire)[index];
   }
 
@@ -257,6 +267,7 @@ struct ConcurrentObjectArena {
    * @return The pointer to the buffer.
    **/
   T* getBuffer(const Index index) {
+    DISPENSO_VERIF_POINT("GetBufLd", this);
     return buffers_.load(std::memory_order_acquire)[index];
   }
 
@@ -340,6 +351,7 @@ struct ConcurrentObjectArena {
 
     Index bufStart = beginIndex & kMask;
     for (Index b = startBuffer; b <= endBuffer; ++b) {
+      DISPENSO_VERIF_POINT("CtorLdBuf", this);
       T* buf = buffers_.load(std::memory_order_acquire)[b];
       const Index bufEnd = b == endBuffer ? (endIndex & kMask) : kBufferSize;
       for (Index i = bufStart; i < bufEnd; ++i)
